@@ -127,7 +127,8 @@ def c19_runs(tier, scale):
 def c02_runs(tier, scale):
     if tier == "thorough":
         return [("c02", [20000 * scale, 4 + (i % 3), 32], None) for i in range(16)]
-    return [("c02", [1200 * scale, 4, 4], None), ("c02", [600 * scale, 6, 4], None), ("c01", [800 * scale, 4], None)]
+    # + the serde path's block writers (negative counts with byte sizes) read by the generic decoder: C16's rows and oracle
+    return [("c02", [1200 * scale, 4, 4], None), ("c02", [600 * scale, 6, 4], None), ("c01", [800 * scale, 4], None), ("c16", [10 * scale], None)]
 
 
 def c04_runs(tier, scale):
